@@ -15,6 +15,22 @@ fn p(s: &str) -> Vec<String> {
 }
 
 pub fn literals() -> Vec<V> {
+    let mut strs: Vec<V> = vec![];
+    // every single character of the alphabet Χ and every pair over its core, as Str literals
+    for &c in crate::model::universe::CHI {
+        strs.push(V::Str(c.to_string()));
+    }
+    for &a in crate::model::universe::CHI_CORE {
+        for &b in crate::model::universe::CHI_CORE {
+            strs.push(V::Str(format!("{a}{b}")));
+        }
+    }
+    let mut v = base_literals();
+    v.extend(strs);
+    v
+}
+
+fn base_literals() -> Vec<V> {
     vec![
         V::str("s"),
         V::str(""),
@@ -38,6 +54,8 @@ pub fn literals() -> Vec<V> {
         V::Ref("r".into(), None),
         V::Ref("a-b:c.d~e_1".into(), None),
         V::Ref("r".into(), Some("Dis \"q\" x".into())),
+        V::Ref("r".into(), Some("b\\s".into())),
+        V::Uri("a\\b".into()),
         V::Uri("http://a/b?c=d&e".into()),
         V::Uri("a`b".into()),
         V::Sym("s".into()),
@@ -48,16 +66,20 @@ pub fn literals() -> Vec<V> {
 }
 
 pub fn all_leaves() -> Vec<F> {
-    leaves()
+    leaves_over(base_literals())
 }
 
 fn leaves() -> Vec<F> {
+    leaves_over(literals())
+}
+
+fn leaves_over(lits: Vec<V>) -> Vec<F> {
     let mut out = vec![];
     for path in ["a", "zZ_9", "a->b", "a->b->c", "a->b->c->d", "andy", "ore", "nota", "truey"] {
         out.push(F::Has(p(path)));
         out.push(F::Missing(p(path)));
     }
-    for (i, lit) in literals().into_iter().enumerate() {
+    for (i, lit) in lits.into_iter().enumerate() {
         for (j, op) in OPS.iter().enumerate() {
             let path = ["a", "a->b", "a->b->c->d"][(i + j) % 3];
             out.push(F::Cmp(p(path), *op, lit.clone()));
